@@ -16,7 +16,8 @@ BOUNDS = ("rounding-erased semantics (every + - * / exact, sqrt algebraic); sin/
 OUTSIDE = ("size of the rounding error (closeness claims near w~0, w~+-1, gimbal lock are decided only in exact arithmetic; branch conditions are those of the exact values); "
            "qua(u,v)/rotation(u,v) on their 'opposite vectors' fallback branches only up to the orthogonality of the chosen axis; rotation(u,v) in its cos>=1-eps shortcut returns the identity "
            "(u and v then differ by < sqrt(2 eps)); extractEulerAngle*/eulerAngles round trips are attempted with a cap and reported as optional; memory order of the components (C16)")
-ASSUMPTIONS = ['float/double literals that are the correctly rounded value of k*pi/4 denote k*pi/4 in the rounding-erased semantics (C11 checks the literals themselves)',
+ASSUMPTIONS = ['layout differential: IEEE addition and multiplication are commutative (operands are sorted before the two builds are compared)',
+               'float/double literals that are the correctly rounded value of k*pi/4 denote k*pi/4 in the rounding-erased semantics (C11 checks the literals themselves)',
                'libm sin/cos/acos/asin/atan2 are the mathematical functions (only identities true of the real functions are used)']
 
 FT = {'f32': 'float', 'f64': 'double'}
@@ -43,8 +44,8 @@ for t, c in FT.items():
     U.add('aa_' + t, [(c, 4)], [(c, 4)], 'auto q=%s(a); stq(o, glm::angleAxis(glm::angle(q), glm::axis(q)));' % Q)
     U.add('ang_' + t, [(c, 4)], [(c, 1), (c, 3)], 'auto q=%s(a); o[0]=glm::angle(q); stv(o2, glm::axis(q));' % Q)
     U.add('angax_' + t, [(c, 1), (c, 3), (c, 3)], [(c, 4), (c, 3)], 'auto q=glm::angleAxis(a[0], %s(b)); stq(o, q); stv(o2, q*%s(c));' % (V3, V3))
-    U.add('uv_' + t, [(c, 3), (c, 3)], [(c, 3), (c, 4)], 'auto u=%s(a); auto v=%s(b); glm::qua<%s> q(u, v); stv(o, q*u); stq(o2, q);' % (V3, V3, c))
-    U.add('rot_' + t, [(c, 3), (c, 3)], [(c, 3), (c, 4)], 'auto u=%s(a); auto v=%s(b); auto q=glm::rotation(u, v); stv(o, q*u); stq(o2, q);' % (V3, V3))
+    U.add('uv_' + t, [(c, 3), (c, 3)], [(c, 4)], 'stq(o, glm::qua<%s>(%s(a), %s(b)));' % (c, V3, V3))
+    U.add('rot_' + t, [(c, 3), (c, 3)], [(c, 4)], 'stq(o, glm::rotation(%s(a), %s(b)));' % (V3, V3))
     U.add('ctor_' + t, [(c, 4)], [(c, 4), (c, 4), (c, 4), (c, 4)],
           'stq(o, glm::qua<%s>(a[0],a[1],a[2],a[3])); stq(o2, glm::qua<%s>::wxyz(a[0],a[1],a[2],a[3])); stq(o3, glm::qua<%s>(a[0], glm::vec<3,%s>(a[1],a[2],a[3])));'
           ' { auto q=%s(a); o4[0]=q[0]; o4[1]=q[1]; o4[2]=q[2]; o4[3]=q[3]; }' % (c, c, c, c, Q))
@@ -217,31 +218,33 @@ def uv_parts(i, T):
     X0 = norm2(u) * norm2(v); s = T.sqrt(0, X0); c = s + dot(u, v); opp = c < E6 * s
     pick = absr(u[0]) > absr(u[2]); t1 = [-u[1], u[0], ZERO]; t2 = [ZERO, -u[2], u[1]]
     raw_opp = [ZERO] + [z3.If(pick, a, b) for a, b in zip(t1, t2)]; raw_std = [c] + cross(u, v)
-    raw = [z3.simplify(z3.If(opp, a, b)) for a, b in zip(raw_opp, raw_std)]
-    X1 = norm2(raw); L = T.sqrt(1, X1)
-    return dict(s=s, c=c, opp=opp, raw=raw, L=L, X0=X0, X1=X1)
+    X1 = z3.simplify(z3.If(opp, norm2(raw_opp), norm2(raw_std))); L = T.sqrt(1, X1)
+    return dict(s=s, c=c, opp=opp, std=z3.Not(opp), raw_std=raw_std, raw_opp=raw_opp, L=L, X0=X0, X1=X1)
 
 def job_twovec(lay, t):
     Un = UNITS[lay]
     def run(S):
         nz = lambda i: [norm2(i[0]) > 0, norm2(i[1]) > 0]
         def spec(i, o, T):
-            P = uv_parts(i, T); q = [rv(x) for x in o[1]]
-            return ([('sqrt0.arg', REq(T.sqrt_arg(0, P['X0']), P['X0'])), ('sqrt1.arg', REq(T.sqrt_arg(1, P['X1']), P['X1'])), ('|u||v|>0', RGoal('gt', P['s'], ZERO)), ('len>0', RGoal('gt', P['L'], ZERO))]
-                    + [('q*len==raw[%d]' % k, REq(q[k] * P['L'], P['raw'][k])) for k in range(4)])
-        chk(S, Un, 'uv_' + t, spec, nz, bounds='all non-zero u, v; chain: q = raw/|raw| (here) + lemmas.* => q maps u/|u| to v/|v| (to -u/|u| on the opposite-vectors branch)',
-            mutant=lambda i, o: [('m', REq(o[1][1].r * uv_parts(i, Trig(None))['L'], -uv_parts(i, Trig(None))['raw'][1]))] if False else [])
+            P = uv_parts(i, T); q = [rv(x) for x in o[0]]
+            g = [('sqrt0.arg', REq(T.sqrt_arg(0, P['X0']), P['X0'])), ('|u||v|>0', RGoal('gt', P['s'], ZERO))]
+            for br in ('std', 'opp'):
+                raw = P['raw_' + br]
+                g += [(br + '.sqrt1.arg', RGoal('eq', T.sqrt_arg(1, P['X1']), norm2(raw), P[br])), (br + '.len>0', RGoal('gt', P['L'], ZERO, P[br]))]
+                g += [('%s.q*len==raw[%d]' % (br, k), RGoal('eq', q[k] * P['L'], raw[k], P[br])) for k in range(4)]
+            return g
+        chk(S, Un, 'uv_' + t, spec, nz, bounds='all non-zero u, v; chain: q = raw/|raw| (here) + lemmas.* => q maps u/|u| to v/|v| (to -u/|u| on the opposite-vectors branch)')
         # gtx rotation(orig, dest), documented for normalised arguments
         un = lambda i: [unit(i[0]), unit(i[1])]
         eps = EPS[t]
         def specr(i, o, T):
-            u, v = i; q = [rv(x) for x in o[1]]; c = dot(u, v); X0 = (ONE + c) * 2; Sq = T.sqrt(0, X0); t_ = cross(u, v)
+            u, v = i; q = [rv(x) for x in o[0]]; c = dot(u, v); X0 = (ONE + c) * 2; Sq = T.sqrt(0, X0); t_ = cross(u, v)
             same = c >= 1 - eps; opp = c < -1 + eps; std = z3.And(z3.Not(same), z3.Not(opp))
-            g = [('std.sqrt.arg', REq(T.sqrt_arg(0, X0), X0)), ('std.s>0', z3.Implies(std, Sq > 0)), ('std.w*2==s', z3.Implies(std, q[0] * 2 == Sq))]
-            g += [('std.xyz*s==cross[%d]' % k, z3.Implies(std, q[k + 1] * Sq == t_[k])) for k in range(3)]
-            g += [('same.identity[%d]' % k, z3.Implies(same, q[k] == (ONE if k == 0 else ZERO))) for k in range(4)]
-            g += [('opp.axis-orthogonal', z3.Implies(opp, dot(q[1:], u) == 0)), ('opp.axis-unit', z3.Implies(opp, norm2(q[1:]) == 1)),
-                  ('opp.|w|<=1e-7', z3.Implies(opp, z3.And(q[0] <= fr(1e-7), q[0] >= fr(-1e-7))))]
+            g = [('std.sqrt.arg', REq(T.sqrt_arg(0, X0), X0)), ('std.s>0', RGoal('gt', Sq, ZERO, std)), ('std.w*2==s', RGoal('eq', q[0] * 2, Sq, std))]
+            g += [('std.xyz*s==cross[%d]' % k, RGoal('eq', q[k + 1] * Sq, t_[k], std)) for k in range(3)]
+            g += [('same.identity[%d]' % k, RGoal('eq', q[k], ONE if k == 0 else ZERO, same)) for k in range(4)]
+            g += [('opp.axis-orthogonal', RGoal('eq', dot(q[1:], u), ZERO, opp)), ('opp.axis-unit', RGoal('eq', norm2(q[1:]), ONE, opp)),
+                  ('opp.w<=1e-7', RGoal('le', q[0], fr(1e-7), opp)), ('opp.w>=-1e-7', RGoal('ge', q[0], fr(-1e-7), opp))]
             return g
         chk(S, Un, 'rot_' + t, specr, un, bounds='all unit u, v; chain: q = (s/2, u x v / s), s = sqrt(2(1+u.v)) (here) + lemmas.* => q maps u to v; cos>=1-eps: identity; cos<-1+eps: half turn about a unit axis orthogonal to u')
     return run
@@ -289,9 +292,16 @@ def job_axisangle(lay, t):
         chk(S, Un, 'angax_' + t, spec, lambda i: [unit(i[1])], setup=setup, bounds='all angles, unit axes, vectors; double-angle identities instantiated for a/2')
     return run
 
-def job_euler(t, names):
+def job_euler(t, names, lay='xyzw'):
     def run(S):
         for n in names:
+            if n == 'qeul':
+                def specq(i, o, T):
+                    e = i[0]; h = [x * z3.RealVal('1/2') for x in e]
+                    qx = [T.cos(h[0]), T.sin(h[0]), ZERO, ZERO]; qy = [T.cos(h[1]), ZERO, T.sin(h[1]), ZERO]; qz = [T.cos(h[2]), ZERO, ZERO, T.sin(h[2])]
+                    return vec_goals('qua(euler)==qz*qy*qx', o[0], qmul(qmul(qz, qy), qx))
+                chk(S, UNITS[lay], 'qeul_' + t, specq, bounds='all angle triples (pitch, yaw, roll): Hamilton product of the three axis quaternions')
+                continue
             if n.startswith('d'):
                 ax = n[1]
                 chk(S, U, 'dea%s_%s' % (ax, t), lambda i, o, T, ax=ax: mat_goals('derivedEulerAngle' + ax, M(o[0], 4, 4), [r + [ZERO] for r in dR(T, ax, i[0][0], i[0][1])] + [[ZERO] * 4]), bounds='all angles and angular velocities')
@@ -312,6 +322,22 @@ def job_euler(t, names):
                     mutant=lambda i, o, n=n: [('m', REq(o[0][1].r, -o[0][1].r + 1))])
     return run
 
+def fp_canon(t, memo=None):
+    """sort the operands of IEEE add/mul (commutative, single NaN in SMT-LIB FP) so that clang's operand-order choices do not matter"""
+    memo = {} if memo is None else memo
+    def go(x):
+        k = x.get_id()
+        if k in memo: return memo[k]
+        ch = x.children()
+        if ch:
+            nc = [go(c) for c in ch]
+            if z3.is_app(x) and x.decl().kind() in (z3.Z3_OP_FPA_ADD, z3.Z3_OP_FPA_MUL) and len(nc) == 3 and nc[1].get_id() > nc[2].get_id(): nc = [nc[0], nc[2], nc[1]]
+            r = x.decl()(*nc) if not all(a.eq(b) for a, b in zip(nc, ch)) else x
+        else: r = x
+        memo[k] = r; return r
+    import sys as _s; lim = _s.getrecursionlimit(); _s.setrecursionlimit(max(lim, 20000))
+    try: return go(t)
+    finally: _s.setrecursionlimit(lim)
 def job_layout(t, fns):
     """[bit] differential: the named components of every result are bit-identical in the XYZW and the WXYZ build (same symbolic inputs, libm as shared uninterpreted functions)"""
     def run(S):
@@ -321,8 +347,10 @@ def job_layout(t, fns):
                 r1 = sym_call(U, name, mode='fp'); r2 = sym_call(UW, name, ins=r1.ins, mode='fp')
             except Unsupported as e:
                 S.rec(name='c04.layout.' + name, kind='encode', result='unsupported', status='not-encoded', note=str(e), mandatory=True, functions=[name]); S.inconclusive.append('layout %s [not encoded: %s]' % (name, e)); continue
+            memo = {}
             for k, (a1, a2) in enumerate(zip(r1.outs, r2.outs)):
                 for j, (x, y) in enumerate(zip(a1, a2)):
+                    x, y = fp_canon(bits_of(x), memo), fp_canon(bits_of(y), memo)
                     S.prove('c04.layout.%s.out%d[%d]' % (name, k, j), same_float(x, y), r1.axioms + r2.axioms, timeout=S.cap(30, 90), kind='spec', functions=['w_' + name + ' (XYZW vs WXYZ)'],
                             bounds='all bit patterns', vars_=[v for row in r1.ins for v in row])
     return run
@@ -345,7 +373,8 @@ def jobs(tier):
                   ('product_%s_%s' % (lay, t), job_product(lay, t)), ('axisangle_%s_%s' % (lay, t), job_axisangle(lay, t)), ('twovec_%s_%s' % (lay, t), job_twovec(lay, t)),
                   ('ctor_%s_%s' % (lay, t), job_ctor(lay, t))]
     for t in FT:
-        names = ['X', 'Y', 'Z', 'dX', 'dY', 'dZ'] + EULER2 + EULER3 + ['ypr', 'or2']
+        names = ['X', 'Y', 'Z', 'dX', 'dY', 'dZ'] + EULER2 + EULER3 + ['ypr', 'or2', 'qeul']
+        J.append(('euler_wxyz_%s' % t, job_euler(t, ['qeul'], 'wxyz')))
         for k in range(0, len(names), 7): J.append(('euler_%s_%d' % (t, k // 7), job_euler(t, names[k:k + 7])))
         J.append(('layout_' + t, job_layout(t, ['qv', 'm3', 'rt', 'mm', 'inv', 'aa', 'uv', 'rot', 'qeul', 'eulq'])))
     return J
